@@ -526,10 +526,7 @@ def opAllScopes (rec : St → Sx → Res) (st : St) (args : List Sx) : Res :=
   match args with
   | e :: _ =>
     -- any expression form: symbol, number, string, list (the same test as reval's)
-    let okForm := match e with
-      | .sym _ _ | .int _ | .bool _ | .str _ | .flt _ | .list _ _ => true
-      | _ => false
-    if !okForm then .error (errA "all-scopes: argument must be a valid expression") else do
+    if !revalArgOk e then .error (errA "all-scopes: argument must be a valid expression") else do
     let prev := st.scope
     let (vs, st1) ← allScopesLoop rec e st st.tc.scopes []
     let st2 ← ({ st1 with scope := prev }).writeGlobal "CS" (.str prev)
